@@ -284,6 +284,7 @@ func runRtmpPull(c RtmpSrvCase) *pbt.Violation {
 		return v
 	}
 	hsk, chunks := c.wire()
+	fd.key = len(chunks)
 	hs := newHostileServerSeg(func(int) []segment {
 		gate := 1537 + 1536 + 12
 		if c.Handshake != "ok" {
@@ -613,6 +614,7 @@ func runRtspPull(c RtspSrvCase) *pbt.Violation {
 		return v
 	}
 	wire := c.wire()
+	fd.key = len(wire)
 	hs := newHostileServer(func(int) ([]byte, []int) { return wire, c.Slices })
 	defer hs.close()
 	mode := 0
